@@ -84,16 +84,17 @@ func (o *verifC37Op) String() string {
 func (o *verifC37Op) isLock() bool { return o.typ == backend.LockFile }
 
 type verifC37State struct {
-	mu      gosync.Mutex // real mutex, never held across a gate
-	x       *xplore.Exec
-	be      backend.Backend
-	ops     map[string]*verifC37Op // by handle name
-	order   []*verifC37Op
-	running int // non-lock inner operations in flight
-	runLock int
-	frozen  bool
-	bad     []string
-	badKind string
+	mu       gosync.Mutex // real mutex, never held across a gate
+	x        *xplore.Exec
+	be       backend.Backend
+	ops      map[string]*verifC37Op // by handle name
+	order    []*verifC37Op
+	running  int // non-lock inner operations in flight
+	runLock  int
+	frozen   bool
+	frozenBy int // callers between their Freeze returning and their Unfreeze
+	bad      []string
+	badKind  string
 
 	maxRunning      int
 	sawTokenWait    bool // some non-lock op waited for a token (entered, no event) at a step
@@ -257,7 +258,10 @@ func (st *verifC37State) abstract() string {
 	return sb.String()
 }
 
-func verifC37Scenario(r *vh.Run, name, prog string, cycles int, cancellable bool) (xplore.Scenario, func(x *xplore.Exec)) {
+func verifC37Scenario(r *vh.Run, name, prog string, cycles int, cancellable bool, freezers int) (xplore.Scenario, func(x *xplore.Exec)) {
+	if freezers <= 0 {
+		freezers = 1
+	}
 	sc := xplore.Scenario{
 		Start: func(x *xplore.Exec) {
 			st := &verifC37State{x: x, ops: map[string]*verifC37Op{}, wctx: map[string]context.Context{}, wcancel: map[string]context.CancelFunc{}, cancelled: map[string]bool{}}
@@ -291,20 +295,28 @@ func verifC37Scenario(r *vh.Run, name, prog string, cycles int, cancellable bool
 					}
 				})
 			}
-			x.Go("F", func() {
-				for c := 0; c < cycles; c++ {
-					fb.Freeze() // scheduling point: freezeLock.Lock()
-					st.mu.Lock()
-					st.frozen = true
-					st.freezeCycles++
-					st.mu.Unlock()
-					x.Gate(xplore.Event{Key: fmt.Sprintf("F:frozen:%d", c), Proc: "F", Kind: "frozen", Yield: true})
-					st.mu.Lock()
-					st.frozen = false
-					st.mu.Unlock()
-					fb.Unfreeze()
+			for fi := 0; fi < freezers; fi++ {
+				fname := "F"
+				if fi > 0 {
+					fname = fmt.Sprintf("F%d", fi+1)
 				}
-			})
+				x.Go(fname, func() {
+					for c := 0; c < cycles; c++ {
+						fb.Freeze() // scheduling point: freezeLock.Lock()
+						st.mu.Lock()
+						st.frozenBy++
+						st.frozen = true
+						st.freezeCycles++
+						st.mu.Unlock()
+						x.Gate(xplore.Event{Key: fmt.Sprintf("%s:frozen:%d", fname, c), Proc: fname, Kind: "frozen", Yield: true})
+						st.mu.Lock()
+						st.frozenBy--
+						st.frozen = st.frozenBy > 0
+						st.mu.Unlock()
+						fb.Unfreeze()
+					}
+				})
+			}
 		},
 		Actions: func(x *xplore.Exec) []xplore.Action {
 			if !cancellable {
@@ -477,21 +489,25 @@ type verifC37Prog struct {
 	cycles     int
 	thorough   bool
 	cancel     bool // the context of a worker may be cancelled while its operation waits for a token
+	freezers   int  // number of goroutines that freeze (0 = one)
 }
 
 var verifC37Progs = []verifC37Prog{
 	// every worker: one non-lock operation then a lock operation; 3 non-lock ops compete for 2 tokens
-	{"A", "Save/p,Load/l|Load/i,Save/l|Stat/s", 1, false, false},
-	{"B", "Remove/k,Stat/l|Stat/c,Remove/l|Save/p", 1, false, false},
+	{"A", "Save/p,Load/l|Load/i,Save/l|Stat/s", 1, false, false, 0},
+	{"B", "Remove/k,Stat/l|Stat/c,Remove/l|Save/p", 1, false, false, 0},
 	// lock operation first; two non-lock operations per worker (token released and re-acquired)
-	{"C", "Save/l,Remove/p|Load/i,Remove/s|Stat/k,Load/c", 1, false, false},
+	{"C", "Save/l,Remove/p|Load/i,Remove/s|Stat/k,Load/c", 1, false, false, 0},
 	// one non-lock op per worker and a pure lock worker
-	{"D", "Load/p|Remove/i|Stat/l,Save/l", 1, false, false},
+	{"D", "Load/p|Remove/i|Stat/l,Save/l", 1, false, false, 0},
 	// five workers with one non-lock operation each, no freeze; a waiting caller may give up
-	{"H-cancel", "Save/p|Load/i|Stat/s|Remove/k|Save/c", 0, false, true},
+	{"H-cancel", "Save/p|Load/i|Stat/s|Remove/k|Save/c", 0, false, true, 0},
 	// two freeze cycles
-	{"E", "Save/s,Remove/l|Stat/p|Load/l,Remove/c", 2, true, false},
-	{"G", "Stat/l,Save/k|Load/s,Stat/i|Remove/p,Load/l", 2, true, false},
+	{"E", "Save/s,Remove/l|Stat/p|Load/l,Remove/c", 2, true, false, 0},
+	{"G", "Stat/l,Save/k|Load/s,Stat/i|Remove/p,Load/l", 2, true, false, 0},
+	// two callers freeze (two lock refreshers): the backend stays frozen for each of them from its Freeze
+	// returning until its own Unfreeze
+	{"J-two-freezers", "Save/p,Load/l|Stat/i", 1, false, false, 2},
 }
 
 func TestVerif_C37(t *testing.T) {
@@ -506,7 +522,7 @@ func TestVerif_C37(t *testing.T) {
 		if p.thorough && !r.Thorough() {
 			continue
 		}
-		sc, check := verifC37Scenario(r, p.name, p.prog, p.cycles, p.cancel)
+		sc, check := verifC37Scenario(r, p.name, p.prog, p.cycles, p.cancel, p.freezers)
 		st := vx.Explore(r, t, p.name, sc, xplore.Options{Policy: xplore.Preempt, Bound: bound, LockPoints: true, MaxSteps: 300}, check)
 		r.Note("scenario %s (%s, %d freeze cycles): bound=%d execs(this shard)=%d maxdev=%d", p.name, p.prog, p.cycles, bound, st.Execs, st.MaxDev)
 		r.Sample(map[string]any{"scenario": p.name, "program": p.prog, "freeze_cycles": p.cycles, "limit": verifC37Limit, "deviation_bound": bound})
